@@ -266,10 +266,11 @@ func GenTable(t *rapid.T, o TableOpt) Table {
 			}
 		case KString:
 			c.S = make([]*string, n)
-			allEmpty := rapid.IntRange(0, 19).Draw(t, "allemptystrings") == 0 // a column of "" (and nulls) only: no byte of content
+			allEmpty := rapid.IntRange(0, 11).Draw(t, "allemptystrings") == 0 // a column of "" (and nulls) only: no byte of content
+			emptyNoNull := allEmpty && rapid.Bool().Draw(t, "allemptynonull")
 			for r := range c.S {
 				if allEmpty {
-					if o.NoNull || rapid.IntRange(0, 2).Draw(t, "emptyornull") > 0 {
+					if o.NoNull || emptyNoNull || rapid.IntRange(0, 2).Draw(t, "emptyornull") > 0 {
 						c.S[r] = Sp("")
 					}
 					continue
